@@ -660,6 +660,61 @@ func c07forall(c *Ctx, sr *schedRoles, fn *ssa.Function, what string) {
 	r.Check(len(problems) == 0, "E3", key, p.Pos(fn.Pos()), "true only after the whole range; false only under the failed test", strings.Join(problems, "; "))
 }
 
+// reportsOnlyStop: a boolean product function that answers true only from its stop/cancel select
+// clauses (getOneFeedback() bool: "interrupted").
+func (p *Prog) reportsOnlyStop(fn *ssa.Function) bool {
+	if fn == nil || !p.IsProduct(fn) || !returnsBoolOnly(fn) {
+		return false
+	}
+	trues := 0
+	for _, b := range fn.Blocks {
+		ret, ok := b.Instrs[len(b.Instrs)-1].(*ssa.Return)
+		if !ok || b == fn.Recover {
+			continue
+		}
+		cv, isC := ret.Results[0].(*ssa.Const)
+		if !isC {
+			return false
+		}
+		if constString(cv) != "true" {
+			continue
+		}
+		trues++
+		onStop := false
+		for _, e := range DomEdges(b) {
+			if _, cs, _ := p.CaseOnEdge(e.From, e.Succ); cs != nil && strings.HasPrefix(p.stopRoleOf(cs.State.Chan), "stop:") {
+				onStop = true
+			}
+		}
+		if !onStop && !p.blockIsStopCase(b) {
+			return false
+		}
+	}
+	return trues > 0
+}
+
+// blockIsStopCase: b is the body of a stop/cancel clause of a select (entered only through it).
+func (p *Prog) blockIsStopCase(b *ssa.BasicBlock) bool {
+	if len(b.Preds) == 0 {
+		return false
+	}
+	for _, pr := range b.Preds {
+		ok := false
+		for i, s := range pr.Succs {
+			if s != b {
+				continue
+			}
+			if _, cs, _ := p.CaseOnEdge(pr, i); cs != nil && strings.HasPrefix(p.stopRoleOf(cs.State.Chan), "stop:") {
+				ok = true
+			}
+		}
+		if !ok {
+			return false
+		}
+	}
+	return true
+}
+
 func c07waitZero(c *Ctx, sr *schedRoles) {
 	r, p := c.R, sr.p
 	fn, wz := sr.loopFn, sr.waitZero
@@ -700,6 +755,10 @@ func c07waitZero(c *Ctx, sr *schedRoles) {
 				e := CondEdge{b, i}
 				okExit := p.edgeIsCallResult(e, func(f *ssa.Function) bool { return f == sr.allZero }, true)
 				if _, cs, _ := p.CaseOnEdge(b, i); cs != nil && strings.HasPrefix(p.stopRoleOf(cs.State.Chan), "stop:") {
+					okExit = true
+				}
+				// ... or a helper that consumes one release reported that it was interrupted by stop/cancel
+				if p.edgeIsCallResult(e, p.reportsOnlyStop, true) {
 					okExit = true
 				}
 				if !okExit {
